@@ -356,6 +356,35 @@ def _mk_dflt():
 _mk_dflt()
 
 
+# ---- handles --------------------------------------------------------------------------------------
+from redun import Handle  # noqa: E402
+
+
+class VHandle(Handle):
+    def __init__(self, name, tag="t", namespace=None):
+        self.tag = tag
+
+
+def _h_step(h, x=0):
+    trace.enter("h_step", h.__handle__.fullname, x)
+    return h
+
+
+def _h_use(h, x=0):
+    trace.enter("h_use", h.__handle__.fullname, x)
+    return x
+
+
+def _h_two(h):
+    trace.enter("h_two", h.__handle__.fullname)
+    return [TASKS["h_step"](h, TASKS["inc"](1)), TASKS["h_step"](h, 5)]
+
+
+for _n, _f in (("h_step", _h_step), ("h_use", _h_use), ("h_two", _h_two)):
+    _f.__name__ = _n
+    TASKS[_n] = task(name=_n, namespace="vwf", source="%s:v1" % _n)(_f)
+
+
 # ---- async twins (real LocalExecutor only) ------------------------------------------------------
 async def _a_add(a, b):
     trace.enter("a_add", a, b)
